@@ -188,6 +188,50 @@ def variadic(ctx, world):
     ctx.floor("A2.variadic instances", n, 5)
 
 
+# ------------------------------------------------------------------------------------------ whole-argnums rules
+def argnums_rules(ctx, world):
+    """defvjp_argnums / defjvp_argnums hand the rule the WHOLE tuple of differentiated positions, which is an
+    arbitrary increasing subsequence of the argument positions (a constant may sit between two traced arguments).
+    A VJP rule must return one cotangent per entry, in that order: its result has to be an element-wise mapping
+    over `argnums` (comprehension / loop / map over argnums, possibly zipped).  Reading argnums[0] / argnums[-1]
+    / len(argnums) to cut a contiguous span out of g assumes the positions are adjacent."""
+    from ..tutil import unseq
+    from ..terms import walk as _walk
+
+    ctx.describe("A2.argnums", "a rule registered with defvjp_argnums maps over the tuple of differentiated positions element-wise (one cotangent per entry, in order); it does not derive a span from argnums[0]/argnums[-1]/len(argnums); a defjvp_argnums rule sums one contribution per (argnum, tangent) pair of zip(argnums, gs)")
+    n = 0
+    for e in world.table.entries:
+        if e.api not in ("defvjp_argnums", "defjvp_argnums") or e.spec != "maker" or not world.in_numpy_scope(e):
+            continue
+        ir = world.ir(e)
+        inst = construct_of(e)
+        if ir is None or not ir.ok:
+            ctx.ob("A2.argnums", inst, None, e.loc)
+            continue
+        n += 1
+        res = unseq(ir.result) if ir.result is not None else None
+        is_argnums = lambda t: t.op == "sym" and t.get("role") == "argnums"
+
+        def over_argnums(src):
+            if is_argnums(src):
+                return True
+            if src.op == "call" and src.fn.op == "ref" and src.fn.ref.qual in ("builtins.zip", "builtins.enumerate") and any(is_argnums(a) for a in src.args):
+                return True
+            return False
+
+        t = res
+        while t is not None and t.op == "call" and t.fn.op == "ref" and t.fn.ref.qual in ("builtins.tuple", "builtins.list", "autograd.core.sum_outgrads") and len(t.args) == 1:
+            t = t.args[0]
+        ok = t is not None and ((t.op == "comp" and over_argnums(t.src) and not t.conds) or (t.op == "call" and t.fn.op == "ref" and t.fn.ref.qual == "builtins.map" and any(is_argnums(a) for a in t.args[1:])))
+        positional = [x for x in (_walk(res) if res is not None else []) if x.op == "sub" and is_argnums(x.obj) and x.idx.op == "const"]
+        if ok and not positional:
+            ctx.ob("A2.argnums", inst, True, e.loc)
+        else:
+            why = (f"it reads `argnums[{positional[0].idx.value}]` to address the cotangents" if positional else "its result is not an element-wise mapping over argnums")
+            ctx.fail("A2.argnums", inst, f"{e.mode}:{e.prim_id}|argnums-span", e.loc, f"the whole-argnums rule of {e.prim_id} does not produce one result per differentiated position: {why} (the differentiated positions need not be adjacent)", "a call in which a constant (or a value of an outer differentiation level) sits between two traced arguments")
+    ctx.ob("A2.argnums", "every whole-argnums rule maps over argnums", True, "autograd/*", nontrivial=False)
+
+
 # ------------------------------------------------------------------------------------------ layout of sequence_extend
 def layout(ctx, world):
     ctx.describe("A2.layout", "sequence_extend_right/left: the primitive's body fixes the segment layout ([SEQ, ELTS] or [ELTS, SEQ]); the VJP slice for argnum 0 and the element index for argnum k select exactly those segments (linear index forms over len(seq), len(elts), argnum)")
